@@ -1457,6 +1457,27 @@ func (e *sysEnv) smtpOp(r *rand.Rand) {
 		_, dom, err := policy.ParseEmailAddress(a.addr)
 		if err != nil {
 			exact = false
+			// the server acknowledged a recipient whose address the exported parser refuses (it was completed or rewritten on the way in).  The
+			// property still speaks about it: what was acknowledged for an address is found where a reader asking for THAT address is sent.
+			// Judged only where every domain is stored, so that "not stored" cannot be the policy's doing.
+			if s.env.pol.ds && len(s.env.pol.dis) == 0 && a.subj != "" {
+				boxes := []string{}
+				for _, ev := range newIDs {
+					if ev.subj == a.subj {
+						boxes = append(boxes, ev.box)
+					}
+				}
+				rd, rerr := s.stack.ap.ExtractMailbox(a.addr)
+				found := false
+				for _, b := range boxes {
+					if rerr == nil && b == rd {
+						found = true
+					}
+				}
+				if len(boxes) > 0 && !found {
+					e.fail("mail-is-fetchable-by-address", fmt.Sprintf("RCPT TO:<%s> and the message (subject %q) were acknowledged with 250 and copies were stored in %q, but a reader asking for %q is sent to mailbox %q (err %v)", a.addr, a.subj, boxes, a.addr, rd, rerr), "")
+				}
+			}
 			continue
 		}
 		if !s.env.ruleStore(dom) {
